@@ -35,8 +35,11 @@ inductive Ent where
 /-- the pool of the harness: objects 0-5 are instances of the three ordinary pool classes 0-2; objects 6-7 are
     instances of class 3, which has `__slots__` without room for `_pyroId`/`_pyroDaemon`; objects 8.. are instances
     of classes 4.. that derive from `set`, `uuid.UUID`, `decimal.Decimal`, `datetime.datetime`, `array.array`
-    (one class each).  Only classes 0-2 are ever registered as classes. -/
-def classOf (k : Nat) : Nat := if k < 6 then k % 3 else if k < 8 then 3 else k - 4
+    (one class each); object 13 is an instance of the ordinary class 9 and objects 14.. are instances of class 10,
+    a subclass of class 9.  Only classes 0-2 are ever registered as classes (so no instance ever inherits a pyro
+    attribute through a base class). -/
+def classOf (k : Nat) : Nat :=
+  if k < 6 then k % 3 else if k < 8 then 3 else if k < 13 then k - 4 else if k = 13 then 9 else 10
 
 /-- `e._pyroId = …` / `e._pyroDaemon = …` (669-670) work: not for instances of a class whose `__slots__` lack
     these names (AttributeError) -/
@@ -47,7 +50,7 @@ def canSet : Ent → Bool
 /-- sent by value, json and msgpack hand the object to `SerializerBase.class_to_dict`; instances of subclasses of
     set / UUID / Decimal / datetime / array are converted by `default()` before that (serializers.py 397-409, 449-470),
     and slotted instances never have a `_pyroDaemon` to clear -/
-def viaClassToDict (k : Nat) : Bool := decide (k < 6)
+def viaClassToDict (k : Nat) : Bool := decide (k < 6) || decide (13 ≤ k)
 
 /-- what an entry of `objectsById` refers to: the daemon's own `DaemonObject` or a pool entity -/
 inductive Ref where
